@@ -47,6 +47,8 @@ type FanSpec struct {
 	Map       map[int]int
 	N         int // rpmRollingWindowSize
 	Alg       AlgSpec
+	NoAttach  bool        // do not attach RPM curve data (the controller's Run does it)
+	CfgMap    map[int]int // pwmMap given in the configuration
 }
 
 func ip(v int) *int { return &v }
@@ -117,6 +119,11 @@ func writeScript(path, body string) {
 // BuildFan creates a real fan2go fan object of the given kind over the interposed tree.
 // Registers: "pwm", "mode" (hwmon with HasMode), "rpm" (HasRpm).
 func BuildFan(e *Env, spec FanSpec, id, curveId string, pwm0, mode0 int) fans.Fan {
+	return BuildFanP(e, spec, id, curveId, pwm0, mode0, "")
+}
+
+// BuildFanP is BuildFan with a prefix for the register names (several fans in one Env).
+func BuildFanP(e *Env, spec FanSpec, id, curveId string, pwm0, mode0 int, px string) fans.Fan {
 	cfg := configuration.FanConfig{
 		ID:        id,
 		NeverStop: spec.NeverStop,
@@ -125,17 +132,21 @@ func BuildFan(e *Env, spec FanSpec, id, curveId string, pwm0, mode0 int) fans.Fa
 		MaxPwm:    spec.CfgMax,
 		StartPwm:  spec.CfgStart,
 	}
+	if spec.CfgMap != nil {
+		m := spec.CfgMap
+		cfg.PwmMap = &m
+	}
 	switch spec.Kind {
 	case "hwmon":
 		sub := "hw_" + id
-		pwmPath := e.Register("pwm", sub+"/pwm1", pwm0)
+		pwmPath := e.Register(px+"pwm", sub+"/pwm1", pwm0)
 		modePath := filepath.Join(e.Dir, sub, "pwm1_enable")
 		if spec.HasMode {
-			modePath = e.Register("mode", sub+"/pwm1_enable", mode0)
+			modePath = e.Register(px+"mode", sub+"/pwm1_enable", mode0)
 		}
 		rpmPath := filepath.Join(e.Dir, sub, "fan1_input")
 		if spec.HasRpm {
-			rpmPath = e.Register("rpm", sub+"/fan1_input", 0)
+			rpmPath = e.Register(px+"rpm", sub+"/fan1_input", 0)
 		}
 		cfg.HwMon = &configuration.HwMonFanConfig{
 			Platform: "verif", Index: 1, RpmChannel: 1, PwmChannel: 1,
@@ -146,10 +157,10 @@ func BuildFan(e *Env, spec FanSpec, id, curveId string, pwm0, mode0 int) fans.Fa
 		}
 	case "file":
 		sub := "file_" + id
-		pwmPath := e.Register("pwm", sub+"/pwm", pwm0)
+		pwmPath := e.Register(px+"pwm", sub+"/pwm", pwm0)
 		fc := &configuration.FileFanConfig{Path: pwmPath}
 		if spec.HasRpm {
-			fc.RpmPath = e.Register("rpm", sub+"/rpm", 0)
+			fc.RpmPath = e.Register(px+"rpm", sub+"/rpm", 0)
 		}
 		cfg.File = fc
 	case "cmd":
@@ -164,9 +175,9 @@ func BuildFan(e *Env, spec FanSpec, id, curveId string, pwm0, mode0 int) fans.Fa
 		writeScript(filepath.Join(sub, "setpwm.sh"), fmt.Sprintf("echo \"$1\" >> %s\nprintf '%%s' \"$1\" > %s\n", wlog, pwmFile))
 		writeScript(filepath.Join(sub, "getpwm.sh"), fmt.Sprintf("cat %s\n", pwmFile))
 		writeScript(filepath.Join(sub, "getrpm.sh"), fmt.Sprintf("cat %s\n", rpmFile))
-		e.RegisterFile("pwm", pwmFile)
-		e.RegisterFile("rpm", rpmFile)
-		e.RegisterFile("wlog", wlog)
+		e.RegisterFile(px+"pwm", pwmFile)
+		e.RegisterFile(px+"rpm", rpmFile)
+		e.RegisterFile(px+"wlog", wlog)
 		cc := &configuration.CmdFanConfig{
 			SetPwm: &configuration.ExecConfig{Exec: filepath.Join(sub, "setpwm.sh"), Args: []string{"%pwm%"}},
 			GetPwm: &configuration.ExecConfig{Exec: filepath.Join(sub, "getpwm.sh")},
@@ -180,7 +191,7 @@ func BuildFan(e *Env, spec FanSpec, id, curveId string, pwm0, mode0 int) fans.Fa
 	}
 	fan, err := fans.NewFan(cfg)
 	must(err)
-	if spec.Kind == "hwmon" {
+	if spec.Kind == "hwmon" && !spec.NoAttach {
 		// measured limits come from attached RPM curve data
 		data := map[int]float64{}
 		mmin, mmax := 0, 255
